@@ -146,6 +146,30 @@ def handle (toks : List String) : Option String :=
     match Form.hlrf T g dg (tol.getD 0 0) iter with
     | some (beta, u, x) => some s!"ok {showFloats (beta :: vecList n u)} {showFloats (vecList n x)} {showIterates T tr}"
     | none => some s!"noconv - - {showIterates T tr}"
+  | ["hlrfnum", n, kinds, p1, p2, rhoZ, tol, iter, c0, b, Q, dx] => do
+    -- `dg = None`: the gradient is the three-point stencil of the regenerated table applied to g (Deriv.partialD), step dx
+    let n ← n.toNat?
+    let p1 ← parseFloatCsv p1
+    let p2 ← parseFloatCsv p2
+    let margs ← parseMargs kinds p1 p2
+    let rz ← parseFloatCsv rhoZ
+    let tol ← parseFloatCsv tol
+    let iter ← iter.toNat?
+    let c0 ← parseFloatCsv c0
+    let b ← parseFloatCsv b
+    let Q ← parseFloatCsv Q
+    let dx ← parseFloatCsv dx
+    let t ← Gen.diffTables.find? (fun t => t.1 == 1 && t.2.1 == 3)
+    let T := natafModel n margs (matOf rz 0 n)
+    let g := quadG n (c0.getD 0 0) (vecOf b 0) (matOf Q 0 n)
+    let dg : (Nat → Float) → Nat → Float := fun x =>
+      let xa := Linalg.mkArr n x
+      let xs := Linalg.ofArr xa x
+      let ga := Linalg.mkArr n (fun i => Deriv.partialD t g i xs (dx.getD 0 0))
+      Linalg.ofArr ga (fun _ => 0)
+    match Form.hlrf T g dg (tol.getD 0 0) iter with
+    | some (beta, u, x) => some s!"ok {showFloats (beta :: vecList n u)} {showFloats (vecList n x)}"
+    | none => some "noconv - -"
   | ["gram", n, cols, al] => do
     -- cols: the matrix column by column (n*n floats); al: the alignment vector or `-`
     let n ← n.toNat?
